@@ -135,7 +135,8 @@ def generate():
                     per[d] = text
                     used_constants.update(tr.used_constants)
                     report["notes"][key] = notes
-                known[name] = {"nparams": spec["nparams"], "fun_params": sp.get("fun_params")}
+                known[name] = {"nparams": spec["nparams"], "fun_params": sp.get("fun_params"),
+                               "tuple": " × " in per["float"].split(":=")[0], "rejects": f"def {py2lean.san(name)}_rejects" in per["float"]}
                 for d in per:
                     texts[d].append(per[d])
                 report["functions"][key] = "ok"
@@ -173,6 +174,29 @@ def generate():
             changed.append(f"GenReal/{mod}.lean")
         if write_if_changed(os.path.join(base, "GenFloat", f"{mod}.lean"), hdr_f + "\n".join(texts["float"]) + "\nend TF\n"):
             changed.append(f"GenFloat/{mod}.lean")
+    # dispatch table for the Float driver
+    disp = ["".join(f"import GenFloat.{m}\n" for m in outputs),
+            "\n/-! GENERATED by tools/py2lean/gen_all.py — do not edit. name -> Float function. -/\n",
+            "namespace TF\n",
+            "def dispatch (name : String) (a : Array Float) : Option (Array Float) :=",
+            "  match name, a.size with"]
+    for key in sorted(report["functions"]):
+        mod, name = key.split(".")
+        k = known[name]
+        n = k["nparams"]
+        suffix = "_d" if k.get("fun_params") else ""
+        args = " ".join(f"a[{i}]!" for i in range(n))
+        if k.get("tuple"):
+            disp.append(f'  | "{name}", {n} => let r := TF.{py2lean.san(name)}{suffix} {args}; some #[r.1, r.2]')
+        else:
+            disp.append(f'  | "{name}", {n} => some #[TF.{py2lean.san(name)}{suffix} {args}]')
+        if k.get("rejects"):
+            gargs = " ".join(f"a[{i}]!" for i in range(n))
+            disp.append(f'  | "{name}!rejects", {n} => some #[if TF.{py2lean.san(name)}_rejects {gargs} then 1.0 else 0.0]')
+    disp.append("  | _, _ => none\n")
+    disp.append("end TF\n")
+    if write_if_changed(os.path.join(base, "GenFloat", "Dispatch.lean"), "\n".join(disp)):
+        changed.append("GenFloat/Dispatch.lean")
     report["changed"] = changed
     write_if_changed(os.path.join(base, "gen_report.json"), json.dumps(report, indent=1, sort_keys=True))
     return report
